@@ -632,22 +632,18 @@ impl ZiPatch {
                                     file.seek(SeekFrom::Current(4))?;
 
                                     // now apply the file!
-                                    let new_file = OpenOptions::new()
+                                    let mut file = OpenOptions::new()
                                         .write(true)
                                         .create(true)
                                         .truncate(false)
-                                        .open(&file_path);
+                                        .open(&file_path)?;
 
-                                    if let Ok(mut file) = new_file {
-                                        if fop.offset == 0 {
-                                            file.set_len(0)?;
-                                        }
-
-                                        file.seek(SeekFrom::Start(fop.offset))?;
-                                        file.write_all(&data)?;
-                                    } else {
-                                        warn!("{file_path} does not exist, skipping.");
+                                    if fop.offset == 0 {
+                                        file.set_len(0)?;
                                     }
+
+                                    file.seek(SeekFrom::Start(fop.offset))?;
+                                    file.write_all(&data)?;
                                 }
                                 SqpkFileOperation::DeleteFile => {
                                     if fs::remove_file(file_path.as_str()).is_err() {
